@@ -70,16 +70,60 @@ def run_case(data):
     ch = Chooser(data)
     r = Result()
     client = ch.bool()
-    s = Solo(client)
-    s.start()
-    r.step('role', 'client' if client else 'server')
+    # with outbound validation off (one case in six) only the failure reasons that do not rest on validation
+    # are generated
+    novalidate = ch.chance(42)
+    s = Solo(client, **({'validate_outbound_headers': False} if novalidate else {}))
+    if novalidate:
+        r.labels.add('validate_outbound_headers=False')
+    upgraded = (not client) and ch.chance(36)
     next_local = 1 if client else 2
     next_peer = 1
     live = []            # streams on which we may still send headers (trailers / response)
+    if upgraded:
+        # h2c: the client's HEADER_TABLE_SIZE arrives in the HTTP2-Settings header and binds the very first block
+        # the server sends (RFC 7540 s3.2.1: the 101 response is the acknowledgement), before any SETTINGS frame
+        import base64
+        import struct
+        v = ch.pick([0, 100, 4096, 1000])
+        s.call('initiate_upgrade_connection',
+               base64.urlsafe_b64encode(struct.pack('>HI', wire.S_HEADER_TABLE_SIZE, v)).rstrip(b'='))
+        s.note_peer_settings([(wire.S_HEADER_TABLE_SIZE, v)])
+        r.step('h2c upgrade', 'HEADER_TABLE_SIZE', v)
+        r.labels.add('h2c-upgrade')
+        next_peer = 3
+        upgrade_settings = wire.PREFACE + wire.settings([(wire.S_HEADER_TABLE_SIZE, v)]) + wire.settings(ack=True)
+        first = [(b':status', b'200')] + [ch.pick(SHARED) for _ in range(ch.int(1, 3))]
+        before = ch.bool()
+        if before:
+            s.feed(upgrade_settings)
+        o = s.call('send_headers', 1, first)
+        r.step('response on stream 1', 'client SETTINGS frame already received' if before else
+               'before the client SETTINGS frame', first, o.brief())
+        if not o.ok:
+            r.violate('C13:harness:upgrade-response-refused', o.brief())
+            return r
+        blocks = [f for f in o.frames if f.type == wire.HEADERS]
+        got = blocks[0].f.get('headers') if blocks else None
+        if got is None:
+            r.violate('C13:block-undecodable-by-peer:%s' % (blocks[0].f.get('decode_error') if blocks else None),
+                      'first block after the h2c upgrade')
+            return r
+        if [(n, v_) for n, v_, _ in got] != first:
+            r.violate('C13:peer-decodes-different-list', 'upgrade: want %r got %r' % (first, got))
+            return r
+        if not before:
+            s.feed(upgrade_settings)
+        live.append(1)
+    else:
+        s.start()
+    upgrade_settings = None
+    r.step('role', 'client' if client else 'server')
     raised_before = False
     nontrivial = False
     pending_size_change = False
     last_ok_push = None
+    last_size = None
     ncalls = ch.int(4, 30)
 
     def check_ok(o, hdrs, what):
@@ -119,8 +163,28 @@ def run_case(data):
     for i in range(ncalls):
         if r.violations:
             break
+        if upgrade_settings is not None and i == 1:
+            s.feed(upgrade_settings)       # the client's preface and SETTINGS frame arrive after our first block
+            upgrade_settings = None
         op = ch.weighted([(5, 'open-ok'), (4, 'open-bad'), (3, 'follow-ok'), (3, 'follow-bad'), (2, 'table-size'),
-                          (2, 'push-ok' if not client else 'open-ok'), (2, 'push-bad' if not client else 'open-bad')])
+                          (2, 'push-ok' if not client else 'open-ok'), (2, 'push-bad' if not client else 'open-bad'),
+                          (2, 'other-settings')])
+        if upgrade_settings is not None and op in ('table-size', 'other-settings'):
+            op = 'follow-ok'
+        if op == 'other-settings':
+            # a SETTINGS frame that does not mention the table size leaves a pending size change pending
+            o = s.feed(wire.settings(ch.pick([[], [(wire.S_MAX_CONCURRENT_STREAMS, 100)],
+                                              [(wire.S_INITIAL_WINDOW_SIZE, 70000), (0x4d, 1)]])))
+            r.step('peer SETTINGS without HEADER_TABLE_SIZE', o.brief())
+            if pending_size_change and v == last_size:
+                # the same value again is no change: the update that is still owed must still be sent (F35)
+                o = s.feed(wire.settings([(wire.S_HEADER_TABLE_SIZE, v), (wire.S_MAX_CONCURRENT_STREAMS, 99)]))
+                r.step('peer repeats HEADER_TABLE_SIZE', v, o.brief())
+                r.labels.add('table-size-repeated-while-pending')
+                continue
+            if pending_size_change:
+                r.labels.add('other-settings-while-size-change-pending')
+            continue
         if op == 'table-size':
             v = ch.pick([0, 64, 100, 4096, 8192, 300])
             if pending_size_change:
@@ -130,6 +194,7 @@ def run_case(data):
                 r.excluded['second-table-size-change-before-next-block'] += 1
                 continue
             pending_size_change = True
+            last_size = v
             # alone, or in one SETTINGS frame with other settings on either side of it
             pairs = [(wire.S_HEADER_TABLE_SIZE, v)]
             others = [(wire.S_INITIAL_WINDOW_SIZE, ch.pick([65535, 70000, 100000])), (wire.S_MAX_FRAME_SIZE, 16384),
@@ -158,8 +223,14 @@ def run_case(data):
                 kind = 'response'
             if op == 'open-bad':
                 how = ch.pick(['list', 'list', 'weight', 'self-dep', 'server-priority'])
+                if novalidate and how == 'list':
+                    how = 'unencodable-only'
                 kw = {}
-                if how == 'list':
+                if how == 'unencodable-only':
+                    hs = hs + [(b'x-new-%d' % ch.int(0, 9), b'fresh-value-before-bad-text-%d' % ch.int(0, 99)),
+                               ('x-bad-text', 'v\udcff')]
+                    how = 'unencodable'
+                elif how == 'list':
                     hs, how = break_list(ch, hs, kind)
                 elif how == 'weight':
                     kw = {'priority_weight': ch.pick([0, 257, 1000, -1])}
@@ -214,6 +285,8 @@ def run_case(data):
             tr = [(b'x-checksum', b'abcdef0123456789'), ch.pick(SHARED)]
             if op == 'follow-bad':
                 how = ch.pick(['no-end-stream', 'pseudo-in-trailers', 'forbidden-late'])
+                if novalidate:
+                    how = 'no-end-stream'
                 if how == 'no-end-stream':
                     o = s.call('send_headers', sid, tr)
                 elif how == 'pseudo-in-trailers':
@@ -254,6 +327,9 @@ def run_case(data):
                 how = 'promised-id'
                 next_local -= 2
                 pid = ch.pick([next_local + 1, parent] + ([last_ok_push, last_ok_push] if last_ok_push else []))
+            elif op == 'push-bad' and novalidate:
+                hs = hs + [(b'x-new-%d' % ch.int(0, 9), b'fresh-before-bad-text-%d' % ch.int(0, 99)), ('x-bad-text', 'v\udcff')]
+                how = 'unencodable'
             elif op == 'push-bad':
                 hs, how = break_list(ch, hs, 'request')
             o = s.call('push_stream', parent, pid, hs)
@@ -330,5 +406,30 @@ def _f33():
     return keys
 
 
+def _f35():
+    """The peer mentions the same HEADER_TABLE_SIZE twice before our next block (plain, and via an h2c upgrade)."""
+    import base64
+    import struct
+    keys = []
+    c = Solo(True)
+    c.start()
+    for frame in ([(wire.S_HEADER_TABLE_SIZE, 0)], [(wire.S_HEADER_TABLE_SIZE, 0), (wire.S_MAX_CONCURRENT_STREAMS, 50)]):
+        c.feed(wire.settings(frame))
+    c.note_peer_settings([(wire.S_HEADER_TABLE_SIZE, 0)])
+    o = c.call('send_headers', 1, req(Chooser(b''), b'/a'))
+    if not o.ok or o.frames[0].f.get('headers') is None:
+        keys.append('C13:block-undecodable-by-peer')
+    s = Solo(False)
+    s.call('initiate_upgrade_connection', base64.urlsafe_b64encode(struct.pack('>HI', 1, 0)).rstrip(b'='))
+    s.note_peer_settings([(wire.S_HEADER_TABLE_SIZE, 0)])
+    s.feed(wire.PREFACE + wire.settings([(wire.S_HEADER_TABLE_SIZE, 0)]) + wire.settings(ack=True))
+    o = s.call('send_headers', 1, [(b':status', b'200'), SHARED[0]])
+    blocks = [f for f in o.frames if f.type == wire.HEADERS]
+    if not o.ok or not blocks or blocks[0].f.get('headers') is None:
+        keys.append('C13:block-undecodable-by-peer:upgrade')
+    return keys
+
+
 FINDINGS = {'F14-encoder-ahead-after-raising-call': _f14,
-            'F33-unencodable-header-text-desynchronises-hpack': _f33}
+            'F33-unencodable-header-text-desynchronises-hpack': _f33,
+            'F35-repeated-header-table-size-drops-size-update': _f35}
